@@ -15,6 +15,7 @@ EXPLANATION = (
     "NAMES (every generated function that is called is defined under the same name pattern and vice versa; the registration line names the command and the defined entry function), "
     "FLAGS (the flag under which a table is built is the flag under which the code reading it is emitted). "
     "NOT decided: that the tables equal the automaton value by value for a given grammar; the reader logic of fish/zsh/pwsh."
+    " DECLGUARD also covers fish (within-word tables are globals: written on every path unless emptied before each call), dropping adaptors on the loop a declaring template stands in, and the flag-decided presence of optional tables in tables.rs; ENC shared with C07."
 )
 ASSUMPTIONS = ["syn's parse; the type inferencer treats unknown types as unknown (never guesses a dimension)", "type aliases StateId/LiteralId/CommandId are used consistently in declarations (they are the dimension carriers)"]
 
